@@ -601,17 +601,144 @@ def r7(prog, ev, rep, helper):
 
 
 # ------------------------------------------------------------------------------------------- R6
+DISCHARGED = {}
+
+
+def partial_eq_discharged(prog, ev):
+    """locations of `T == T` sites that C04-R6 shows to be residual (operands not both numbers/arrays/objects)"""
+    if id(prog) not in DISCHARGED:
+        from vflib.report import Report
+        tmp = Report("tmp")
+        DISCHARGED[id(prog)] = set()
+        roles = find_roles(prog, ev, tmp)
+        if roles:
+            helper = r3(prog, ev, tmp, roles[1])
+            if helper:
+                r6(prog, ev, tmp, helper, roles[1])
+                if any(i["rule"] == "C04-R6" and i["status"] not in ("ok",) for i in tmp.instances):
+                    DISCHARGED[id(prog)] = set()
+    return DISCHARGED[id(prog)]
+
+
 def r6(prog, ev, rep, helper, eq_fn):
-    rep.rule("C04-R6", "fallback equality census: value equality of non-numbers delegated to T: PartialEq "
-             "(arrays/objects are then compared by the data type, which for serde_json distinguishes 1 from 1.0)")
+    rep.rule("C04-R6", "containers are compared structurally: arrays element-wise and objects member-wise through the value-equality "
+             "helper itself (so numbers inside them compare by mathematical value); the data type's own `==` (T: PartialEq) decides "
+             "only what is left when the operands are not both numbers, not both arrays and not both objects")
+    P0, P1 = None, None
+    t = ev.summary(helper)
+
+    def pair_of(x, acc):
+        """x is the tuple (acc(lhs), acc(rhs)) of the helper's two parameters"""
+        if x.k != "tuple" or len(x.a) != 2:
+            return False
+        ok = []
+        for i, y in enumerate(x.a):
+            ok.append(y.k == "call" and y.a[0] == QT + "::" + acc and len(y.a) == 2 and y.a[1].k == "param" and y.a[1].a[0] == i)
+        return all(ok)
+    branches = {}
+    for x in subterms(t):
+        if x.k == "match":
+            for acc in ("as_array", "as_object"):
+                if pair_of(x.a[0], acc) and acc not in branches:
+                    sel = [b for p, g, b in x.a[1] if p.get("k") != "Wild"]
+                    if sel:
+                        branches[acc] = (x, sel[0])
+
+    def is_self_call(b, want_args=None):
+        return b.k == "call" and b.a[0] == helper and len(b.a) == 3
+    where = prog.loc_of(helper)
+    def inline(body):
+        # a branch that only calls a local helper: look at what the helper computes
+        for _ in range(3):
+            if body.k == "call" and body.a[0] in prog.bodies and body.a[0] != helper and prog.items[body.a[0]]["kind"] == "Fn":
+                body = ev.apply(Tm("fnitem", (body.a[0],)), list(body.a[1:]))
+            else:
+                break
+        return body
+
+    def coll(x):
+        # the collection a length / iteration is taken of, through iter()/collect() copies of references
+        for _ in range(6):
+            if x.k == "call" and len(x.a) == 2 and x.a[0].rsplit("::", 1)[-1] in ("iter", "collect", "into_iter", "as_slice", "deref", "as_ref"):
+                x = x.a[1]
+            else:
+                break
+        return x
+
+    def conj(x):
+        return [x.a[1], x.a[2]] if x.k == "logic" and x.a[0] == "And" else [x]
+    if "as_array" in branches:
+        m, body = branches["as_array"]
+        body = inline(body)
+        A = Tm("proj", (m.a[0].a[0], "Option::Some.0")); B = Tm("proj", (m.a[0].a[1], "Option::Some.0"))
+        good = False
+        why = str(body)[:200]
+        if body.k == "logic" and body.a[0] == "And":
+            ln, rest = body.a[1], body.a[2]
+            oklen = ln.k == "bin" and ln.a[0] == "Eq" and all(y.k == "call" and y.a[0].endswith("::len") for y in ln.a[1:]) and {coll(ln.a[1].a[1]), coll(ln.a[2].a[1])} == {A, B}
+            okall = False
+            if rest.k == "call" and rest.a[0].endswith("Iterator::all") and len(rest.a) == 3:
+                it = ev.item_of(rest.a[1])
+                app = ev.apply(rest.a[2], [it])
+                unit = lambda y: coll(y.a[1]) if y.k == "call" and y.a[0] == "<item>" else None
+                okall = it.k == "tuple" and is_self_call(app) and app.a[1] == it.a[0] and app.a[2] == it.a[1] \
+                    and {unit(it.a[0]), unit(it.a[1])} == {A, B}
+            good = oklen and okall
+            if not oklen:
+                why = "lengths are not compared: `%s`" % ln
+            elif not okall:
+                why = "elements are not compared pairwise by the helper: `%s`" % str(rest)[:160]
+        rep.check(good, "C04-R6", "%s|arrays" % shared.rk(prog, ev, helper), where, "same length and element-wise equal (by the helper)",
+                  "arrays are not compared as RFC 9535 2.3.5.2.2 requires (same length, element-wise equal): %s" % why)
+    if "as_object" in branches:
+        m, body = branches["as_object"]
+        A = Tm("proj", (m.a[0].a[0], "Option::Some.0")); B = Tm("proj", (m.a[0].a[1], "Option::Some.0"))
+        good = False
+        why = str(body)[:200]
+        if body.k == "logic" and body.a[0] == "And":
+            ln, rest = body.a[1], body.a[2]
+            oklen = ln.k == "bin" and ln.a[0] == "Eq" and all(y.k == "call" and y.a[0].endswith("::len") for y in ln.a[1:]) and {ln.a[1].a[1], ln.a[2].a[1]} == {A, B}
+            okq = False
+            if rest.k == "call" and rest.a[0].endswith("::all") and len(rest.a) == 3:
+                it = ev.item_of(rest.a[1])
+                inner = ev.apply(rest.a[2], [it])
+                if inner.k == "call" and inner.a[0].endswith("::any") and len(inner.a) == 3:
+                    it2 = ev.item_of(inner.a[1])
+                    leaf = ev.apply(inner.a[2], [it2])
+                    if leaf.k == "logic" and leaf.a[0] == "And":
+                        keq, veq = leaf.a[1], leaf.a[2]
+                        if is_self_call(keq):
+                            keq, veq = veq, keq
+                        okq = "PartialEq" in str(keq) and is_self_call(veq) and str(it) != str(it2) \
+                            and {str(ev.item_of(rest.a[1])), str(ev.item_of(inner.a[1]))} == {"<item>(%s)" % A, "<item>(%s)" % B}
+            good = oklen and okq
+            if not oklen:
+                why = "member counts are not compared: `%s`" % ln
+            elif not okq:
+                why = "members are not matched by name and compared by the helper: `%s`" % str(rest)[:160]
+        rep.check(good, "C04-R6", "%s|objects" % shared.rk(prog, ev, helper), where, "same member count, every member has an equal member of the same name (by the helper)",
+                  "objects are not compared as RFC 9535 2.3.5.2.2 requires (same names, each with equal values): %s" % why)
     n = 0
-    for p in prog.family(helper):
-        for x in T.walk(prog.bodies[p]["thir"]["root"]):
-            if x.get("k") == "Call" and x.get("fn") in ("core::cmp::PartialEq::eq", "core::cmp::PartialEq::ne"):
-                g = x.get("gargs") or []
-                if g and re.fullmatch(r"&*(?:'\w+ )?T", g[0]):
-                    n += 1
-                    rep.bad("C04-R6", "%s|PartialEq<T>" % shared.rk(prog, ev, prog.owner_fn(p)), T.loc(x),
-                            "structured values are compared with the data type's own `==`; inside arrays/objects numbers are "
-                            "then not compared by mathematical value")
+    for s_ in ev.sited(helper):
+        if s_["kind"] != "call" or not re.search(r"PartialEq.*::(eq|ne)$", s_["term"].a[0]):
+            continue
+        x = s_["node"]
+        g = x.get("gargs") or []
+        if not (g and re.fullmatch(r"&*(?:'\w+ )?T", g[0])):
+            continue
+        n += 1
+        excluded = set()
+        for c in s_["pc"]:
+            if c[0] == "notarm":
+                for acc in ("as_array", "as_object"):
+                    if pair_of(c[1], acc):
+                        excluded.add(acc)
+        if {"as_array", "as_object"} <= excluded and {"as_array", "as_object"} <= set(branches):
+            rep.ok("C04-R6", "%s|PartialEq<T>" % shared.rk(prog, ev, prog.owner_fn(helper)), T.loc(x),
+                   "the data type's `==` only decides operands that are not both numbers / arrays / objects")
+            DISCHARGED.setdefault(id(prog), set()).add(T.loc(x))
+        else:
+            rep.bad("C04-R6", "%s|PartialEq<T>" % shared.rk(prog, ev, prog.owner_fn(helper)), T.loc(x),
+                    "structured values are compared with the data type's own `==`; inside arrays/objects numbers are "
+                    "then not compared by mathematical value")
     rep.ok("C04-R6", "census", "-", "%d delegation site(s)" % n)
